@@ -61,6 +61,9 @@ type RTEnv struct {
 	FailDial int
 	dials    int
 	Settings []wire.Setting
+	// OnFrame, if set before the first dial, is called from each connection's reader goroutine for every
+	// frame the scripted server receives (after the automatic PING reply).
+	OnFrame func(rc *RTConn, f Frame)
 }
 
 func NewRTEnv(caseID string, opts http2.ClientOpts, serverSettings []wire.Setting) (*RTEnv, error) {
@@ -92,6 +95,9 @@ func NewRTEnv(caseID string, opts http2.ClientOpts, serverSettings []wire.Settin
 			p.OnFrame = func(f Frame) {
 				if f.Type == wire.TPing && !f.Ack {
 					p.Write(wire.Frame(nil, wire.TPing, wire.FAck, 0, f.Ping[:], -1))
+				}
+				if e.OnFrame != nil {
+					e.OnFrame(rc, f)
 				}
 			}
 			e.mu.Lock()
